@@ -16,6 +16,7 @@ import Pdpy11.Driver.Asm
 import Pdpy11.Driver.Defs
 import Pdpy11.Driver.Layout
 import Pdpy11.Driver.Shunt
+import Pdpy11.Driver.Poly
 namespace Pdpy11.Driver
 
 def handle (line : String) : String :=
@@ -50,6 +51,7 @@ def handle (line : String) : String :=
     | "defs" => handleDefs args
     | "layout" => handleLayout args
     | "shunt" => handleShunt args
+    | "poly" => handlePoly args
     | "ping" => "pong"
     | _ => "bad-op"
 
